@@ -28,8 +28,13 @@ searches above hold fixed -
 """
 from __future__ import annotations
 
+import collections
 import contextlib
+import dataclasses
+import datetime
+import enum
 import itertools
+import types
 
 from mc import choice, common, explore
 
@@ -57,8 +62,6 @@ MET_QUICK = [("auto", s) for s in SHAPES] + [("tool", s) for s in ("call", "args
             [("transform", s) for s in ("call", "list")]
 MET_THOROUGH = [(p, s) for p in PW for s in SHAPES]
 LLM_SCRIPTS = [[["t0"]], [["t1"]], [["t0", "t1"]], [["zz"], ["t0"]], [["t0"], ["t0"]]]
-KNOWN_ATTRS = {"timeout", "max_ros", "silent", "allowed_capabilities", "tools", "_total_atp_produced",
-               "_ros_accumulated", "_operations_count"}
 INTRO = ["list_tools", "export_tool_schemas", "get_statistics", "repair"]  # public calls that are not requests for a tool
 ETC_NAMES = ["t0", "t1", "zz", "T0", " t0"]  # structured calls also ask for near-miss spellings of a registered name
 
@@ -259,6 +262,134 @@ def judge_counters(st, before, entry):
     return v
 
 
+# ---- generic, name-independent fingerprint of an object's state (engine A's canonical key) ----------------------
+_OPAQUE = "<opaque>"
+
+
+def _num(v):
+    if isinstance(v, float) and v.is_integer():  # max(0, x) style code turns 0.0 into 0: the same value
+        v = int(v)
+    return ("num", repr(v))
+
+
+def _atom(v, stack):
+    """hashable by-value form of `v` as ONE leaf (used for set members, dict keys and callables' owners)"""
+    out = {}
+    _flatten(v, (), out, stack)
+    return tuple(sorted((repr(p), leaf) for p, leaf in out.items()))
+
+
+def _flatten(v, path, out, stack):
+    """out[path] = leaf for every scalar reachable from v through containers / instance attributes, by value.
+    Objects are told apart by type, never by address; harness-owned probe tools are leaves (their counters are the
+    observation, not engine state)."""
+    if v is None or isinstance(v, (bool, str, bytes)):
+        out[path] = (type(v).__name__, v)
+    elif isinstance(v, enum.Enum):
+        out[path] = ("enum", type(v).__name__, v.name)
+    elif isinstance(v, (int, float, complex)):
+        out[path] = _num(v)
+    elif isinstance(v, (datetime.datetime, datetime.date, datetime.time, datetime.timedelta)):
+        out[path] = ("time-value",)
+    elif isinstance(v, _ToolBase):
+        out[path] = ("probe-tool", type(v).__name__, v.name)
+    elif id(v) in stack:
+        out[path] = ("cycle",)
+    elif isinstance(v, (types.MethodType,)):
+        out[path] = ("method", getattr(v.__func__, "__qualname__", "?"), _atom(v.__self__, stack | {id(v)}))
+    elif isinstance(v, (types.FunctionType, types.BuiltinFunctionType, type)) or callable(v) and not hasattr(v, "__dict__"):
+        out[path] = ("callable", getattr(v, "__module__", None), getattr(v, "__qualname__", type(v).__name__))
+    else:
+        stack = stack | {id(v)}
+        if isinstance(v, dict):
+            keys = [("k:" + k) if isinstance(k, str) else repr(_atom(k, stack)) for k in v]
+            out[path + ("#keys",)] = ("keys", tuple(keys))  # insertion order is observable (listings)
+            for k, x in zip(keys, list(v.values())):
+                _flatten(x, path + (k,), out, stack)
+        elif isinstance(v, (list, tuple, collections.deque)):
+            out[path + ("#len",)] = ("len", len(v))
+            for i, x in enumerate(list(v)):
+                _flatten(x, path + (i,), out, stack)
+        elif isinstance(v, (set, frozenset)):
+            out[path] = ("set", tuple(sorted(repr(_atom(x, stack)) for x in v)))
+        else:
+            attrs = None
+            if dataclasses.is_dataclass(v) or hasattr(v, "__dict__"):
+                attrs = dict(getattr(v, "__dict__", {}))
+            for cls in type(v).__mro__:
+                slots = cls.__dict__.get("__slots__", ())
+                for sname in ((slots,) if isinstance(slots, str) else slots):
+                    if sname not in ("__dict__", "__weakref__") and hasattr(v, sname):
+                        attrs = attrs if attrs is not None else {}
+                        attrs[sname] = getattr(v, sname)
+            out[path + ("#type",)] = ("type", type(v).__name__)
+            if attrs is None or type(v).__module__ in ("_thread", "threading"):  # locks, events, threads, C objects: by type
+                out[path] = (_OPAQUE,)
+            else:
+                for k in sorted(attrs):
+                    _flatten(attrs[k], path + (k,), out, stack)
+
+
+def flatten(obj):
+    out = {}
+    _flatten(obj, (), out, frozenset())
+    return out
+
+
+def _under(path, prefixes):
+    return any(path[:i] in prefixes for i in range(1, len(path) + 1)) if prefixes else False
+
+
+_VOLATILE = None
+
+
+def volatile_paths():
+    """Which parts of an engine's state are mere activity statistics is decided by behaviour, not by name: requests that
+    involve no tool and no registration at all (arithmetic, a failing expression, an unknown name, a literal) run on a fresh
+    engine; every NUMERIC leaf they change (counters, accumulated efficiency / ROS, timings), every sequence whose length
+    they change (logs) and every leaf that differs between two identical runs (clock readings, ids) is volatile."""
+    global _VOLATILE
+    if _VOLATILE is not None:
+        return _VOLATILE
+
+    def probe():
+        st = build_state(["NET"])
+        f0 = flatten(st.mito)
+        m = st.mito
+        for call in (lambda: m.metabolize("1+1"), lambda: m.metabolize("1/0"), lambda: m.metabolize("zz()"),
+                     lambda: m.metabolize("[1]"), lambda: m.metabolize("1 and 2"), lambda: m.metabolize("zz()", PW["tool"]),
+                     lambda: m.digest_glucose("2"), lambda: m.execute_tool_call(ToolCall(id="c0", name="zz", arguments={})),
+                     lambda: m.metabolize("1+1")):
+            try:
+                call()
+            except Exception:  # noqa: BLE001 - totality is not this property
+                pass
+        return f0, flatten(m)
+
+    (a0, a1), (_b0, b1) = probe(), probe()
+    vol = set()
+    for p in set(a0) | set(a1) | set(b1):
+        x0, x1, y1 = a0.get(p), a1.get(p), b1.get(p)
+        if x1 != y1:
+            vol.add(p)  # not even reproducible
+        elif x0 != x1:
+            if p and p[-1] == "#len":
+                vol.add(p[:-1])
+            elif (x0 is None or x0[0] == "num") and (x1 is None or x1[0] == "num"):
+                vol.add(p)
+    _VOLATILE = frozenset(vol)
+    return _VOLATILE
+
+
+def public_health(mito):
+    """what the dropped statistics mean for future behaviour, as the engine itself reports it publicly"""
+    try:
+        stats = mito.get_statistics()
+        return ("health", repr(stats.get("health")) if isinstance(stats, dict) else type(stats).__name__)
+    except Exception as e:  # noqa: BLE001
+        return ("health-raised", type(e).__name__)
+
+
 class ScriptedProvider:
     """LLM provider whose tool requests are dictated round by round by `next_round(i) -> [tool names]`"""
     name = "scripted"
@@ -364,9 +495,13 @@ class Model:
         order = tuple((n, cur.get(n)) for n in st.mito.tools)  # registration order kept by the engine
         if set(cur) != set(st.mito.tools):
             raise common.HarnessError(f"reference registry {sorted(cur)} != engine registry {sorted(st.mito.tools)}")
-        # any attribute this harness does not know (e.g. a decision cache added later) keeps states apart
-        extra = tuple(sorted((k, repr(v)) for k, v in st.mito.__dict__.items() if k not in KNOWN_ATTRS))
-        return (order, extra)
+        # the engine's whole instance state, by value and without knowing any attribute name (e.g. a decision cache added
+        # later keeps states apart); only activity statistics (see volatile_paths) are dropped - what they mean for the
+        # engine's behaviour is taken from its public report instead
+        vol = volatile_paths()
+        flat = flatten(st.mito)
+        state = tuple(sorted((repr(p), leaf) for p, leaf in flat.items() if not _under(p, vol)))
+        return (order, public_health(st.mito), state)
 
     def observe(self, st):
         return repr(st.last)
